@@ -7,6 +7,7 @@ import (
 	"github.com/PowerDNS/lightningstream/config"
 	"github.com/PowerDNS/lightningstream/snapshot"
 	"github.com/PowerDNS/lightningstream/utils"
+	"github.com/PowerDNS/lightningstream/utils/verifhook"
 	"github.com/c2h5oh/datasize"
 	"github.com/sirupsen/logrus"
 )
@@ -41,12 +42,14 @@ func (d *Downloader) NotifyNewSnapshot() {
 // a delay in between. Eventually either the load succeeds, or a new snapshot
 // becomes available that can be loaded.
 func (d *Downloader) Run(ctx context.Context) error {
+	verifhook.Start(ctx, "downloader", d.instance)
 	for {
 		select {
 		case <-ctx.Done():
 			return context.Canceled
 		case <-d.newSnapshotSignal:
 			// continue
+			verifhook.Yield(ctx, "downloader:signal")
 		}
 
 		// Keep retrying on error.
@@ -88,6 +91,7 @@ func (d *Downloader) LoadOnce(ctx context.Context, ni snapshot.NameInfo) error {
 	// Limit number of downloaded compressed snapshots in memory
 	downloadToken := d.r.downloadSnapshotLimit.Acquire()
 	defer downloadToken.Release()
+	verifhook.Yield(ctx, "downloader:download-token")
 
 	// Fetch the blob from the storage
 	t0 := time.Now()
@@ -111,6 +115,7 @@ func (d *Downloader) LoadOnce(ctx context.Context, ni snapshot.NameInfo) error {
 	// Limit number of decompressed snapshots in memory
 	// CAUTION: we cannot defer the Release, check all error paths!
 	token := d.r.decompressedSnapshotLimit.Acquire()
+	verifhook.Yield(ctx, "downloader:decompress-token")
 
 	t1 := time.Now()
 
@@ -128,6 +133,7 @@ func (d *Downloader) LoadOnce(ctx context.Context, ni snapshot.NameInfo) error {
 	data = nil // allow it to be freed
 	_ = data   // silence linter
 	downloadToken.Release()
+	verifhook.Yield(ctx, "downloader:decoded")
 
 	// Make snapshot available to the syncer, replacing any previous one
 	// that has not been loaded yet.
